@@ -93,7 +93,7 @@ func init() {
 					key := funcKey(rel, fd) + ":" + c.src(called) + "←" + c.src(ix)
 					want := c.src(called)
 					guarded := false
-					for _, f := range factsOf(guardsAt(info, stack)) {
+					for _, f := range factsThroughLocals(info, defs, guardsAt(info, stack)) { // also `miss := v == nil; if miss { return }`
 						b, ok := unparen(f.E).(*ast.BinaryExpr)
 						if !ok || (b.Op != token.NEQ && b.Op != token.EQL) {
 							continue
